@@ -443,5 +443,5 @@ def _count(val: Any) -> int | None:
         return None
     try:
         return int(val)
-    except ValueError:
+    except (ValueError, TypeError, OverflowError):
         return None
